@@ -568,6 +568,51 @@ def extract(bdir):
     out.append("/-- src/error_context.c: save_context stores command_giver, restore_context puts it back (1 = present) -/\n"
                "def ctxSaveRestore : List Nat := %s\n" % str(cs))
 
+    # ---------------- backend(): recovery point, top of the loop, the call of call_heart_beat; the timer callback ------------
+    bfn = ast_function(bdir, "src/backend.c", "backend")
+    btop = kids(body_of(bfn))
+    wl_b = [i for i, st in enumerate(btop) if st.get("kind") == "WhileStmt"]
+    if len(wl_b) != 1:
+        raise TieBroken("backend:loop", "expected exactly one top-level while loop in backend()")
+
+    def calls(n, name):
+        return [x for x in walk(n) if x.get("kind") == "CallExpr" and Sym.callee(x) == name]
+    rec = [i for i, st in enumerate(btop[:wl_b[0]]) if st.get("kind") == "IfStmt" and calls(kids(st)[0], "_setjmp") + calls(kids(st)[0], "setjmp")
+           and calls(kids(st)[1], "restore_context")]
+    loop_body = kids(btop[wl_b[0]])[1]
+    lk = kids(loop_body)
+    pos = {0: [], 1: [], 2: []}
+    for i, st in enumerate(lk):
+        a_ = assign_of(st)
+        if a_ and a_[0] == "eval_cost" and any(dref(x) == "config_int" for x in walk(a_[1])):
+            pos[0].append(i)
+        if st.get("kind") == "CallExpr" and Sym.callee(st) == "remove_destructed_objects":
+            pos[1].append(i)
+        if st.get("kind") == "IfStmt" and len(kids(st)) == 2 and calls(kids(st)[1], "call_heart_beat"):
+            c = strip(kids(st)[0])
+            okc = c.get("kind") == "CallExpr" and Sym.callee(c) == "platform_atomic_load_int" and \
+                any(dref(x) == "heart_beat_flag" for x in walk(c))
+            if not okc:
+                raise TieBroken("backend:loop", "call_heart_beat in the backend loop is not guarded by `if (HEART_BEAT_FLAG())`")
+            pos[2].append(i)
+    if len(rec) != 1 or any(len(v) != 1 for v in pos.values()) or len(calls(bfn, "call_heart_beat")) != 2 or \
+            len(calls(btop[wl_b[0]], "call_heart_beat")) != 1:
+        raise TieBroken("backend:loop", "backend(): expected the setjmp/restore_context recovery point in front of the loop, and in the "
+                        "loop `eval_cost = max`, `remove_destructed_objects ()`, `if (HEART_BEAT_FLAG()) call_heart_beat ()` once "
+                        "each (found %s, recovery points %d)" % ({k: len(v) for k, v in pos.items()}, len(rec)))
+    border = [3] + [k for k, _ in sorted(pos.items(), key=lambda kv: kv[1][0])]
+    info["backendOrder"] = border
+    out.append("/-- src/backend.c backend(): 3 = `if (setjmp (econ.context)) restore_context (&econ);` in front of the loop, then inside\n"
+               "    `while (1)`: 0 = `eval_cost = CONFIG_INT (__MAX_EVAL_COST__)`, 1 = `remove_destructed_objects ()` (which swaps replaced\n"
+               "    programs), 2 = `if (HEART_BEAT_FLAG()) call_heart_beat ()` - what the harness command `tick` reproduces -/\n"
+               "def backendOrder : List Nat := %s\n" % str(border))
+    tfn = ast_function(bdir, "src/backend.c", "heartbeat_timer_callback")
+    sy = Sym("heartbeat_timer_callback", ["heart_beat_flag"], {}, ["heart_beat_flag"])
+    sy.run(kids(body_of(tfn)))
+    info["timerSetsFlag"] = sy.state["heart_beat_flag"]
+    out.append("/-- src/backend.c heartbeat_timer_callback: the value it leaves in heart_beat_flag (what the op `flag` emulates) -/\n"
+               "def timerSetsFlag (heart_beat_flag : Int) : Int := %s\n" % sy.state["heart_beat_flag"])
+
     # ---------------- get_heart_beats: filled from the back ---------------------------------------------------------------
     gh = ast_function(bdir, "src/backend.c", "get_heart_beats")
     gl = [x for x in walk(gh) if x.get("kind") == "WhileStmt"]
